@@ -350,7 +350,24 @@ pub fn run_project(input: &ProjectInput) -> PipelineResult {
     for (i, doc) in import_resolved.iter() {
         let mut oo = OpOutputs { path: input.op_files[*i].0.clone(), resolved: extract::exec_doc(doc), ..Default::default() };
         let file_index = nschema + *i;
-        let idx: Vec<usize> = (0..files.len()).map(|k| if k < nschema { k } else if k == file_index { nschema } else { usize::MAX }).collect();
+        // as crates/cli/src/generate.rs: the file itself and the files its definitions come from get consecutive source indices
+        let used: Vec<usize> = {
+            use nitrogql_ast::base::HasPos;
+            doc.definitions.iter().map(|d| d.position()).filter(|p| !p.builtin).map(|p| p.file).collect()
+        };
+        let mut next = nschema;
+        let idx: Vec<usize> = (0..files.len())
+            .map(|k| {
+                if k < nschema {
+                    k
+                } else if k == file_index || used.contains(&k) {
+                    next += 1;
+                    next - 1
+                } else {
+                    usize::MAX
+                }
+            })
+            .collect();
         match guarded(|| {
             let mut writer = SourceWriter::new();
             writer.set_file_index_mapper(idx.clone());
